@@ -34,6 +34,7 @@ class Report:
         self.explanation = ''
         self.controls = []       # positive controls (name, fired)
         self.trusted = []
+        self.job_errors = []     # jobs that ended in an analysis error (the run is then never reported as passing)
 
     # -- recording
     def ob(self, rule, construct, ok, detail='', loc='', nontrivial=True, sample=None):
@@ -123,6 +124,7 @@ class Report:
                               failed=sum(1 for o in self.obs if o['rule'] == r and not o['ok']))
                       for r in sorted({o['rule'] for o in self.obs})},
             notes=self.notes,
+            analysis_errors=list(self.job_errors),
             exhaustive=False,
         )
         if checker_cmd:
@@ -140,11 +142,12 @@ class Report:
             print(f"  rule {r}: {d['total']} obligations, {d['failed']} failed")
         for ln in lines:
             print(ln)
-        if broken:
-            for b in broken:
-                print(f"ANALYSIS-ERROR property={self.prop} {b}")
-            return 2
-        return 1 if unlisted else 0
+        broken = broken + [f"job not analysed: {e}" for e in self.job_errors]
+        for b in broken:
+            print(f"ANALYSIS-ERROR property={self.prop} {b}")
+        if unlisted:
+            return 1            # a definite violation was derived; incomplete coverage elsewhere does not retract it
+        return 2 if broken else 0
 
 
 def analysis_error(prop, tier, msg, seed=0):
